@@ -73,6 +73,17 @@ DOC_TEMPLATES = {
 }
 BENIGN = dict(header="Summary.", pdoc="the a", ptype="int", pdefault="5", rdoc="the result", rtype="int")
 
+DOC_CONTEXTS = OrderedDict(
+    (
+        ("or_none", "{p} or None."),
+        ("list_of", "List of {p}"),
+        ("either_or", "Either {p} or {p}, whichever comes first."),
+        ("second_sentence", "the a. {p} or `None`. More text."),
+        ("of_the", "An instance of {p} or a str"),
+    )
+)
+LIVE_ENTRIES = ["function_live", "function_live_infer", "class_live", "class_live_merge"]
+LIVE_SLOTS = ["postponed_annotation", "quoted_annotation", "postponed_return", "quoted_return"]
 DOC_ENTRIES = ["docstring_parse", "docstring_parse_infer", "function_parse", "function_parse_infer", "class_parse", "class_parse_infer", "doctrans_file", "sync_files", "gen_file"]
 CODE_ENTRIES = ["function_parse", "function_parse_infer", "class_parse_infer", "pydantic_parse", "argparse_parse", "sqlalchemy_parse", "doctrans_file", "sync_files", "gen_file", "sync_properties"]
 IR_ENTRIES = ["emit_all"]
@@ -134,6 +145,14 @@ def cases(tier, seed):
         if style != "rest" and (entry not in ("docstring_parse", "docstring_parse_infer", "function_parse_infer") or qk == "ticks3"):
             continue
         yield dict(kind="doc", entry=entry, slot=slot, payload=pk, quote=qk, style=style)
+    # prose positions in which the docstring reader guesses a type from the description ("X or None", "List of X", second sentence)
+    for entry, slot, pk, qk, style, dk in itertools.product(("docstring_parse", "docstring_parse_infer", "function_parse_infer", "doctrans_file"), ("pdoc", "rdoc"), PAYLOADS, ("raw", "tick"), ("rest", "google", "numpydoc"), DOC_CONTEXTS):
+        if entry == "doctrans_file" and style != "rest":
+            continue
+        yield dict(kind="doc", entry=entry, slot=slot, payload=pk, quote=qk, style=style, doc_context=dk)
+    # live objects (functions and classes imported from a scratch module) whose annotations are stored as text: postponed evaluation, or quoted by hand
+    for entry, slot, pk in itertools.product(LIVE_ENTRIES, LIVE_SLOTS, PAYLOADS):
+        yield dict(kind="live", entry=entry, slot=slot, payload=pk)
     for entry, slot, (pk, p) in itertools.product(CODE_ENTRIES, CODE_SLOTS, PAYLOADS.items()):
         for ck in CONTEXTS if slot in ("default_expr", "default_expr_unannotated", "class_attr_value") else ("plain",):
             yield dict(kind="code", entry=entry, slot=slot, payload=pk, context=ck)
@@ -334,6 +353,9 @@ def judge(events, allowed, d, ctx, marker_text):
         elif kind == "exec":
             code = ev[1]
             fname = getattr(code, "co_filename", "")
+            if fname.startswith(_SCRATCH["sent_dir"]) or fname.startswith(d):
+                v("input_module_executed", "no module named by the input is run", "exec of %s" % os.path.basename(fname))
+                continue
             if not (fname.startswith("<") and not fname.startswith("<frozen")):
                 continue
             src = last_compile[1] if last_compile and last_compile[1] is not None else None
@@ -364,6 +386,11 @@ def judge(events, allowed, d, ctx, marker_text):
             v("process_or_network", "no process spawned, no network", "%s %s" % (kind, ev[1]), event=kind.split(".")[0])
         elif kind in effects.FS_EVENTS:
             v("foreign_fs_change", "no directory/file manipulation", "%s %s" % (kind, ev[1]), event=kind)
+    if SENT in sys.modules:
+        # importlib.import_module raises no "import" audit event: look at the module table itself (and forget the module, so that the next case starts clean)
+        for k in [k for k in sys.modules if k == SENT or k.startswith(SENT + ".")]:
+            del sys.modules[k]
+        v("sentinel_imported", "never imported", "%s in sys.modules" % SENT)
     for marker in ("IMPORTED", "TOUCHED"):
         mp = os.path.join(_SCRATCH["sent_dir"], marker)
         if os.path.exists(mp):
@@ -429,6 +456,9 @@ def run(case):
         transitions += 1
         try:
             if case["kind"] == "doc":
+                if case.get("doc_context"):
+                    p = DOC_CONTEXTS[case["doc_context"]].format(p=p)
+                    ctx["doc_context"] = case["doc_context"]
                 doc = build_doc(case["style"], case["slot"], p)
                 ctx["style"] = case["style"]
                 src = doc if case["entry"].startswith("docstring_parse") else module_with_doc(doc)
@@ -436,6 +466,8 @@ def run(case):
             elif case["kind"] == "code":
                 ctx["context"] = case.get("context", "plain")
                 thunk, allowed = run_entry(case["entry"], module_with_code(case["slot"], CONTEXTS[case.get("context", "plain")].format(p=p)), d, True)
+            elif case["kind"] == "live":
+                thunk = live_thunk(case["entry"], case["slot"], p, d)
             elif case["kind"] == "ir":
                 thunk = lambda: run_emitters(case["slot"], p)  # noqa
             else:
@@ -461,6 +493,46 @@ def run(case):
     finally:
         shutil.rmtree(d, ignore_errors=True)
     return dict(outcome="+".join(sorted(outcomes)) or "none", transitions=transitions, violations=viol, extra=extra)
+
+
+_LIVE_N = [0]
+
+
+def live_thunk(entry, slot, p, d):
+    """a function / class object imported (outside the recording) from a scratch module in which the payload is an annotation kept as text"""
+    import importlib.util
+
+    import cdd.class_.parse
+    import cdd.function.parse
+
+    postponed = slot.startswith("postponed")
+    ann = p if postponed else repr(p)
+    a_ann, r_ann = (ann, "int") if slot.endswith("annotation") else ("int", ann)
+    src = (
+        ("from __future__ import annotations\n\n\n" if postponed else "")
+        + 'def f(a: %s = 1, b=5) -> %s:\n    """\n    Summary.\n\n    :param a: the a\n\n    :param b: the b\n    """\n    return a\n\n\n' % (a_ann, r_ann)
+        + 'class ConfigClass(object):\n    """\n    Summary.\n\n    :cvar a: the a\n    """\n\n    a: %s = 1\n\n    def __call__(self, c: %s = 2) -> %s:\n        """\n        Call.\n\n        :param c: the c\n        """\n        return c\n' % (a_ann, a_ann, r_ann)
+    )
+    ast.parse(src)  # SyntaxError -> not applicable
+    _LIVE_N[0] += 1
+    name = "c17_live_%d_%d" % (os.getpid(), _LIVE_N[0])
+    path = os.path.join(d, name + ".py")
+    with open(path, "wt") as f:
+        f.write(src)
+    spec = importlib.util.spec_from_file_location(name, path)
+    mod = importlib.util.module_from_spec(spec)
+    sys.modules[name] = mod  # inspect.getsource goes through sys.modules
+    spec.loader.exec_module(mod)  # annotations are text: importing the module evaluates none of them
+
+    def thunk():
+        try:
+            if entry.startswith("function_live"):
+                return cdd.function.parse.function(mod.f, infer_type=entry.endswith("infer"))
+            return cdd.class_.parse.class_(mod.ConfigClass, merge_inner_function="__call__" if entry.endswith("merge") else None)
+        finally:
+            sys.modules.pop(name, None)
+
+    return thunk
 
 
 IMPORT_LINES = [
@@ -594,6 +666,8 @@ def run_control(case, d):
         except BaseException:  # noqa
             pass
     events = list(ev)
+    for k in [k for k in sys.modules if k == SENT or k.startswith(SENT + ".")]:
+        del sys.modules[k]  # the sanctioned import must not be attributed to the cases that follow
     seen = any(e[0] == "import" and e[1] == SENT for e in events) or os.path.exists(os.path.join(_SCRATCH["sent_dir"], "IMPORTED"))
     mp = os.path.join(_SCRATCH["sent_dir"], "IMPORTED")
     if os.path.exists(mp):
@@ -607,9 +681,9 @@ def describe(tier):
     return dict(
         rule="targeted: {de} docstring entry points x 6 docstring slots x {p} payloads x 3 quotings (x 3 styles for the docstring parser); {ce} code entry points x "
         "5 code slots x {p} payloads; all emitters on interfaces whose doc/default/typ are payloads; json_schema parse; {re} route/OpenAPI entry points (bottle route parser, openapi parser, openapi_bulk on files, "
-        "FastAPI route parser) x {ys} places in the route docstring's YAML/JSON block x {yp} YAML payloads (python-specific tags that name callables/modules, and Python call text); 2 positive controls; exhaustive: every "
+        "FastAPI route parser; {dc} type-guess positions of a description x 2 slots x {p} payloads x 2 quotings x 3 styles; {le} live-object entry points x {ls} text-annotation slots x {p} payloads) x {ys} places in the route docstring's YAML/JSON block x {yp} YAML payloads (python-specific tags that name callables/modules, and Python call text); 2 positive controls; exhaustive: every "
         "description of <= {n} tokens over a 15-token whitelist-probing alphabet through docstring.parse; a case = one call under the audit hook".format(
-            de=len(DOC_ENTRIES), ce=len(CODE_ENTRIES), p=len(PAYLOADS), n=3 if tier == "quick" else 4, re=len(ROUTE_ENTRIES), ys=len(YAML_SLOTS), yp=len(YAML_PAYLOADS)),
+            de=len(DOC_ENTRIES), ce=len(CODE_ENTRIES), p=len(PAYLOADS), n=3 if tier == "quick" else 4, re=len(ROUTE_ENTRIES), ys=len(YAML_SLOTS), yp=len(YAML_PAYLOADS), dc=len(DOC_CONTEXTS), le=len(LIVE_ENTRIES), ls=len(LIVE_SLOTS)),
         bounds=dict(payloads=dict(PAYLOADS), yaml_payloads=dict(YAML_PAYLOADS), yaml_slots=YAML_SLOTS, route_entries=ROUTE_ENTRIES, doc_slots=DOC_SLOTS, code_slots=CODE_SLOTS, tokens=TOKENS),
         exhaustive=True,
         explanation="names_evaluated counts executions of string-compiled code derived from input text that only loaded names/attributes (what the type probe does today); "
